@@ -69,8 +69,63 @@ def cases(tier, seed):
             if cfg == 'gaussian-class' and not t[3]:
                 # E2 layer: the same object was fitted and conditionally sampled on a differently dependent table before
                 out.append((t, cfg, seed, 'refit'))
-    out.sort(key=lambda c: (c[1] != 'default', -c[0][0]))
+    # a model re-created from its dict must condition exactly like the model it came from - also on tables with duplicated /
+    # affinely related columns, where fit() regularises the correlation matrix
+    for name in ROUNDTRIP_TABLES:
+        for cfg in ('gaussian-class', 'default'):
+            out.append((('struct', name), cfg, seed, 'roundtrip'))
+    out.sort(key=lambda c: (c[1] != 'default', -c[0][0] if isinstance(c[0][0], int) else 0))
     return out
+
+
+ROUNDTRIP_TABLES = ('dup(x,x,y)', 'affine(x,3x+1)', 'dup-after-unrelated(a,b,c,b)', 'anti(x,-x,y)', 'one-const', 'integers')
+
+
+def _roundtrip(r, case):
+    from copulas.multivariate import GaussianMultivariate
+    (_, name), cfg, seed, _ = case
+    df = tables.structural_tables()[name]
+    cols = list(df.columns)
+    tag0 = f'structural table {name}, config {cfg}'
+    r.tr(2)
+    gm = tables.fit_gm(df, cfg)
+    try:
+        twin = GaussianMultivariate.from_dict(gm.to_dict())
+    except Exception as e:
+        r.violation(f'C12:roundtrip:from_dict-raises:{type(e).__name__}', f'{tag0}: from_dict(to_dict()) raised {e}', case=case)
+        return r
+    subsets = [s_ for k in range(1, len(cols)) for s_ in itertools.combinations(cols, k)]
+    for sub in subsets:
+        for pattern in ('medians', 'alt-5-95'):
+            vals = values_for(df, sub, pattern)
+            outs = []
+            for m in (gm, twin):
+                m.set_random_state(17)
+                r.tr()
+                try:
+                    outs.append(m.sample(4, conditions=dict(vals)))
+                except Exception as e:
+                    outs.append(e)
+            r.ev()
+            r.nontriv()
+            r.state((name, cfg, sub, pattern))
+            a, b = outs
+            if isinstance(a, Exception) or isinstance(b, Exception):
+                if type(a) is not type(b):
+                    r.violation('C12:roundtrip:conditional-sample', f'{tag0}, conditions {vals}: the fitted model '
+                                f'{"raised " + type(a).__name__ if isinstance(a, Exception) else "returned rows"}, the model '
+                                f're-created from its dict {"raised " + type(b).__name__ + ": " + str(b) if isinstance(b, Exception) else "returned rows"}',
+                                case=case)
+                continue
+            A_, B_ = a.to_numpy(dtype=float), b.to_numpy(dtype=float)
+            if list(a.columns) != list(b.columns) or A_.shape != B_.shape or \
+                    not np.allclose(A_, B_, rtol=1e-9, atol=1e-12, equal_nan=True):
+                r.violation('C12:roundtrip:conditional-sample', f'{tag0}, conditions {vals}: under the same seed the model '
+                            f're-created from its dict samples {B_[0].tolist()} where the fitted model samples {A_[0].tolist()}',
+                            case=case)
+    r.hit('roundtrip')
+    r['sample'] = {'table': name, 'config': cfg, 'subsets': len(subsets)}
+    return r
 
 
 def values_for(df, sub, pattern):
@@ -104,6 +159,8 @@ def schur(C, cols, free, given, z):
 def run_case(case):
     t, cfg, seed, hist = case
     r = engine.new_result()
+    if hist == 'roundtrip':
+        return _roundtrip(r, case)
     df, info = tables.gaussian_copula_table(t, A.shift_from_seed(seed))
     cols = list(df.columns)
     d = len(cols)
@@ -232,8 +289,14 @@ def run_case(case):
                         if not out.equals(out2):
                             r.violation('C12:not-reproducible', f'{tag}: two calls with the same seed differ', case=case)
             # ---- scripted conditional law (moderate patterns only, one container) ----------------------------
+            # ... whose conditioning scores are moderate: the oracle recovers the normal scores of the OUTPUT through cdf(ppf(.)),
+            # which is the identity only away from the marginals' far tails (a "median" of a heavily tied integer column can be
+            # the lower bound of its fitted Uniform, i.e. a score of -5.2; the exact request comparison above still covers it)
             if pattern in ('medians', 'alt-5-95') and len(free) >= 1 and scripted < 6 and \
-                    np.linalg.eigvalsh(S_ref).min() > 1e-6:
+                    np.linalg.eigvalsh(S_ref).min() > 1e-6 and np.max(np.abs(zref)) > 2.6:
+                r.hit('script-skipped:extreme-conditioning-score')
+            if pattern in ('medians', 'alt-5-95') and len(free) >= 1 and scripted < 6 and \
+                    np.linalg.eigvalsh(S_ref).min() > 1e-6 and np.max(np.abs(zref)) <= 2.6:
                 scripted += 1
                 from mc.checks.c01 import sqrt_psd
                 P = A.lattice(NSCRIPT, len(free))
@@ -275,6 +338,68 @@ def run_case(case):
                     r.violation('C12:script:conditional-law', f'{tag0}, conditions {vals}: output normal scores have mean/cov '
                                 f'{em:.3f}/{ec:.3f} away from the Schur values', case=case)
                 r.hit('script')
+    # ---- far-out conditions, scripted draw: the free columns are the SELECTED family's quantiles of Phi(z), also for |z| > 5.17
+    # (probabilities within float32 eps of 0 / 1 must not be clipped on the way through a selecting wrapper)
+    if protocol_ok and d >= 2:
+        import copulas.univariate as U_
+        fam_of = {}
+        for c in cols:
+            try:
+                fam_of[c] = U_.Univariate.from_dict(uni[c].to_dict())
+            except Exception:
+                fam_of[c] = None
+        done = 0
+        for sub in subsets:
+            if done >= 4 or len(sub) != 1:
+                continue
+            free = [c for c in cols if c not in sub]
+            for pattern in ('far-above', 'far-below'):
+                vals = values_for(df, sub, pattern)
+                P = A.lattice(257, len(free))
+                seen = {}
+
+                def scripted_far(mean, cov, size):
+                    if len(np.ravel(mean)) != len(free):
+                        raise ValueError('unexpected dimension')
+                    z = np.asarray(mean)[None, :] + stats.norm.ppf(P) @ sqrt_psd_(np.asarray(cov, float)).T
+                    seen['z'] = z
+                    return z
+                from mc.checks.c01 import sqrt_psd as sqrt_psd_
+                try:
+                    with seams.seam(script={'multivariate_normal': scripted_far}):
+                        r.tr()
+                        gm.set_random_state(None)
+                        out = gm.sample(257, conditions=dict(vals))
+                except Exception:
+                    continue                      # failures of far-out conditions are reported by the record-mode loop above
+                if 'z' not in seen:
+                    continue
+                Z = seen['z']
+                matched_all = True
+                for c in free:
+                    if fam_of[c] is None:
+                        continue
+                    oc = out[c].to_numpy(dtype=float)
+                    hit_ = False
+                    for i in range(Z.shape[1]):
+                        pr = stats.norm.cdf(Z[:, i])
+                        with np.errstate(all='ignore'):
+                            want = np.asarray(fam_of[c].percent_point(pr), float)
+                        okm = np.isclose(oc, want, rtol=1e-9, atol=1e-12, equal_nan=True) | ~np.isfinite(want)
+                        if okm.all():
+                            hit_ = True
+                            break
+                    r.ev(len(oc))
+                    if not hit_:
+                        matched_all = False
+                        r.violation('C12:far-condition:free-column-not-quantile-of-draw', f'{tag0}, conditions {vals}: free column '
+                                    f'{c!r} is not percent_point(Phi(z)) of the fitted {type(fam_of[c]).__name__} marginal for the '
+                                    f'conditional normal scores z (|z| up to {np.max(np.abs(Z)):.1f})', case=case)
+                        break
+                done += 1
+                r.hit('far-condition-script')
+                if not matched_all:
+                    break
     r.hit(f'd={d}')
     r.hit(f'cfg:{cfg}')
     r['sample'] = {'table': list(map(str, t)), 'config': cfg, 'subsets': len(subsets), 'patterns': list(PATTERNS),
